@@ -2,7 +2,11 @@
 // one of the 2^kappa verifier coin strings.
 //
 // Real code under test: SchindelhauerTMCG::TMCG_VerifyStackEquality, both encodings (VTMF_Card / TMCG_Card),
-// cyclic = false (shuffle) and cyclic = true (rotation).
+// cyclic = false (shuffle) and cyclic = true (rotation); and the value-level cut-and-choose verifiers of the QR
+// encoding: TMCG_VerifyQuadraticResidue (false statement: a non-residue with Jacobi symbol +1),
+// TMCG_VerifyNonQuadraticResidue (a residue), TMCG_VerifyMaskValue (zz/z with Jacobi symbol -1) and, end to end,
+// TMCG_VerifyCardSecret with a false decryption share for a one-bit card of type 0 and of type 1 (--enc qrvalue;
+// provers qr_guess_prover / nqr_guess_prover / maskvalue_guess_prover below, same enumeration and oracle).
 //
 // Harness-side prover (public operations only: TMCG_CreateStackSecret, TMCG_MixStack, tmcg_mpz_shash, stream
 // operators): for a FALSE statement (s, s2) and a guess b in {0,1}^kappa it commits in round i to the hash of a
@@ -59,8 +63,12 @@ template<class StackT, class SecretT> static bool guess_prover(std::iostream &io
 	return true;
 }
 
-template<class StackT, class SecretT> static void explore(const std::string &prefix, const StackT &s, const StackT &s2, bool cyclic,
-	unsigned kappa, const std::vector<unsigned> &guesses, const Ops<StackT, SecretT> &ops, uint64_t seed)
+typedef std::function<bool(std::iostream &, const std::vector<int> &)> GuessProver;
+typedef std::function<bool(std::iostream &)> VerifierRole;
+
+// all (guess, verifier coin string) pairs for one false statement, one kappa and the given guesses
+static void explore_roles(const std::string &prefix, unsigned kappa, const std::vector<unsigned> &guesses,
+	const GuessProver &prover, const VerifierRole &verifier, uint64_t seed)
 {
 	for (size_t gi = 0; gi < guesses.size(); gi++)
 	{
@@ -91,9 +99,7 @@ template<class StackT, class SecretT> static void explore(const std::string &pre
 				buf[0] = (k < kappa && ((c >> k) & 1)) ? 0xFF : 0x00;
 				return true;
 			};
-			RunRes r = run_inter(
-				[&](std::iostream &io) { return guess_prover<StackT, SecretT>(io, s, s2, cyclic, guess, ops); },
-				[&](std::iostream &io) { return ops.verify(s, s2, cyclic, io); }, rs, &csP, &csV);
+			RunRes r = run_inter([&](std::iostream &io) { return prover(io, guess); }, verifier, rs, &csP, &csV);
 			R->counters["runs"]++;
 			// fully steered: every random request of the verifier thread was a one-byte request answered by the harness,
 			// i.e. the verifier's behaviour in this run is a function of the enumerated string alone
@@ -137,6 +143,165 @@ template<class StackT, class SecretT> static void explore(const std::string &pre
 	}
 }
 
+template<class StackT, class SecretT> static void explore(const std::string &prefix, const StackT &s, const StackT &s2, bool cyclic,
+	unsigned kappa, const std::vector<unsigned> &guesses, const Ops<StackT, SecretT> &ops, uint64_t seed)
+{
+	explore_roles(prefix, kappa, guesses,
+		[&](std::iostream &io, const std::vector<int> &guess) { return guess_prover<StackT, SecretT>(io, s, s2, cyclic, guess, ops); },
+		[&](std::iostream &io) { return ops.verify(s, s2, cyclic, io); }, seed);
+}
+
+// ---------------------------------------------------------------- quadratic-residue value proofs (QR encoding)
+// TMCG_VerifyQuadraticResidue(key, t): level line; jacobi(t) == 1; kappa pairs (R_i, S_i) with R_i S_i = t; then per
+// round one challenge (tmcg_mpz_srandomb(foo, 1) = one 1-byte draw) and one answer: a root of R_i (challenge 1) or of
+// S_i (challenge 0), answer != 1.  Guessing prover for a NON-residue t (public operations only, no secret key):
+// guess 1: R_i = r^2, S_i = t / R_i;  guess 0: S_i = s^2, R_i = t / S_i;  it always answers with the one root it has.
+// The other value of the pair is a non-residue, so no answer exists for the other challenge.
+static bool qr_guess_prover(std::iostream &io, const TMCG_PublicKey &key, mpz_srcptr t, const std::vector<int> &guess)
+{
+	std::string line;
+	if (!std::getline(io, line)) return false;
+	if (strtoul(line.c_str(), NULL, 10) != guess.size()) return false;
+	std::vector<Z> root(guess.size());
+	Z sq, other, g;
+	for (size_t i = 0; i < guess.size(); i++)
+	{
+		do
+		{
+			tmcg_mpz_srandomm(root[i], key.m);
+			mpz_gcd(g, root[i], key.m);
+		}
+		while (mpz_cmp_ui(g.v, 1) || mpz_cmp_ui(root[i].v, 1) <= 0);
+		mpz_mul(sq, root[i], root[i]), mpz_mod(sq, sq, key.m);
+		if (!mpz_invert(other, sq, key.m)) return false;
+		mpz_mul(other, other, t), mpz_mod(other, other, key.m);
+		if (guess[i]) io << (mpz_srcptr)sq << std::endl << (mpz_srcptr)other << std::endl;     // R_i, S_i
+		else io << (mpz_srcptr)other << std::endl << (mpz_srcptr)sq << std::endl;
+	}
+	for (size_t i = 0; i < guess.size(); i++)
+	{
+		if (!std::getline(io, line)) return false;      // challenge, ignored
+		io << (mpz_srcptr)root[i] << std::endl;
+	}
+	return true;
+}
+// TMCG_VerifyNonQuadraticResidue(key, t): first bar with bar * y = t, then the residue proof for bar.
+// Guessing prover for a RESIDUE t: bar = t / y is a non-residue with Jacobi symbol +1.
+static bool nqr_guess_prover(std::iostream &io, const TMCG_PublicKey &key, mpz_srcptr t, const std::vector<int> &guess)
+{
+	Z bar;
+	if (!mpz_invert(bar, key.y, key.m)) return false;
+	mpz_mul(bar, bar, t), mpz_mod(bar, bar, key.m);
+	io << (mpz_srcptr)bar << std::endl;
+	return qr_guess_prover(io, key, bar, guess);
+}
+// TMCG_VerifyMaskValue(key, z, zz): level line; kappa values t_i; per round one challenge and an answer (r, b):
+// challenge 1: t_i = zz r^2 y^b, challenge 0: t_i = z r^2 y^b, r != 1.  Guessing prover: t_i is a masking of zz
+// (guess 1) or of z (guess 0) and the answer is that (r, b).
+static bool maskvalue_guess_prover(std::iostream &io, const TMCG_PublicKey &key, mpz_srcptr z, mpz_srcptr zz, const std::vector<int> &guess)
+{
+	std::string line;
+	if (!std::getline(io, line)) return false;
+	if (strtoul(line.c_str(), NULL, 10) != guess.size()) return false;
+	std::vector<Z> r(guess.size()), b(guess.size());
+	Z t, g;
+	for (size_t i = 0; i < guess.size(); i++)
+	{
+		do
+		{
+			tmcg_mpz_srandomm(r[i], key.m);
+			mpz_gcd(g, r[i], key.m);
+		}
+		while (mpz_cmp_ui(g.v, 1) || mpz_cmp_ui(r[i].v, 1) <= 0);
+		tmcg_mpz_srandomb(b[i], 1);
+		mpz_mul(t, r[i], r[i]), mpz_mod(t, t, key.m);
+		mpz_mul(t, t, guess[i] ? zz : z), mpz_mod(t, t, key.m);
+		if (mpz_get_ui(b[i]) & 1) mpz_mul(t, t, key.y), mpz_mod(t, t, key.m);
+		io << (mpz_srcptr)t << std::endl;
+	}
+	for (size_t i = 0; i < guess.size(); i++)
+	{
+		if (!std::getline(io, line)) return false;
+		io << (mpz_srcptr)r[i] << std::endl << (mpz_srcptr)b[i] << std::endl;
+	}
+	return true;
+}
+
+static std::vector<unsigned> guesses_for(unsigned kappa)
+{
+	std::vector<unsigned> g;
+	if (kappa <= 4) for (unsigned x = 0; x < (1u << kappa); x++) g.push_back(x);
+	else { g.push_back(0), g.push_back((1u << kappa) - 1), g.push_back(0x4D), g.push_back(0xB2); }
+	return g;
+}
+
+static void fam_qrvalue(QWorld &QW, const std::vector<unsigned> &kappas, uint64_t seed)
+{
+	const TMCG_PublicKey &pk = *QW.pub[0];
+	const TMCG_SecretKey &sk = *QW.sec[0];
+	UseCoins u(seed ^ fnv("qrvalue"), 35);
+	// u^2: a residue; y u^2: a non-residue with Jacobi symbol +1; j: Jacobi symbol -1
+	Z uu, res, nres, jm, z, zzbad, g;
+	do { tmcg_mpz_srandomm(uu, pk.m); mpz_gcd(g, uu, pk.m); } while (mpz_cmp_ui(g.v, 1) || mpz_cmp_ui(uu.v, 1) <= 0);
+	mpz_mul(res, uu, uu), mpz_mod(res, res, pk.m);
+	mpz_mul(nres, res, pk.y), mpz_mod(nres, nres, pk.m);
+	mpz_set_ui(jm, 2);
+	while (mpz_jacobi(jm, pk.m) != -1) mpz_add_ui(jm, jm, 1);
+	mpz_set(z, nres);
+	mpz_mul(zzbad, z, jm), mpz_mod(zzbad, zzbad, pk.m);          // zz / z has Jacobi symbol -1: zz is no masking of z
+	// the harness decides the truth with the secret key
+	if (!tmcg_mpz_qrmn_p(res, sk.p, sk.q) || tmcg_mpz_qrmn_p(nres, sk.p, sk.q) || mpz_jacobi(nres, sk.m) != 1)
+		harness_error("qrvalue: residuosity of the test values is not as constructed");
+	{ Z q; if (!mpz_invert(q, z, pk.m)) harness_error("qrvalue: z not invertible"); mpz_mul(q, q, zzbad); mpz_mod(q, q, pk.m);
+	  if (mpz_jacobi(q, pk.m) != -1) harness_error("qrvalue: zz/z should have Jacobi symbol -1"); }
+	for (size_t kk = 0; kk < kappas.size(); kk++)
+	{
+		unsigned kappa = kappas[kk];
+		std::vector<unsigned> guesses = guesses_for(kappa);
+		SchindelhauerTMCG tV(kappa, 2, 1), tB(kappa, 2, 1);   // 2 players, ONE type bit (card types 0 and 1)
+		// "nres is a quadratic residue"
+		explore_roles("guess:qr:value:qr", kappa, guesses,
+			[&](std::iostream &io, const std::vector<int> &gu) { return qr_guess_prover(io, pk, nres, gu); },
+			[&](std::iostream &io) { return tV.TMCG_VerifyQuadraticResidue(pk, nres, io, io); }, seed);
+		// "res is a quadratic non-residue"
+		explore_roles("guess:qr:value:nqr", kappa, guesses,
+			[&](std::iostream &io, const std::vector<int> &gu) { return nqr_guess_prover(io, pk, res, gu); },
+			[&](std::iostream &io) { return tV.TMCG_VerifyNonQuadraticResidue(pk, res, io, io); }, seed);
+		// "zzbad is a masking of z"
+		explore_roles("guess:qr:value:maskvalue", kappa, guesses,
+			[&](std::iostream &io, const std::vector<int> &gu) { return maskvalue_guess_prover(io, pk, z, zzbad, gu); },
+			[&](std::iostream &io) { return tV.TMCG_VerifyMaskValue(pk, z, zzbad, io, io); }, seed);
+		// end to end: a false decryption share for a one-bit card.  Player 0 (no secret key used) announces the wrong
+		// residuosity bit of z[0][0]; if accepted, the verifier (player 1) opens the card as the other type.
+		for (size_t type = 0; type < 2; type++)
+		{
+			TMCG_Card c(2, 1); TMCG_CardSecret cs0(2, 1);
+			tB.TMCG_CreatePrivateCard(c, cs0, QW.ring, 1, type);
+			bool nonres = !tmcg_mpz_qrmn_p(&c.z[0][0], sk.p, sk.q);
+			// open the one-bit card with both secret keys
+			size_t true_type = 0, opened_type = 99;
+			for (size_t k = 0; k < 2; k++)
+			{
+				if (mpz_jacobi(&c.z[k][0], QW.sec[k]->m) != 1) harness_error("qrvalue: card component not in Z°");
+				if (!tmcg_mpz_qrmn_p(&c.z[k][0], QW.sec[k]->p, QW.sec[k]->q)) true_type ^= 1;
+			}
+			if (true_type != type) harness_error("qrvalue: card type");
+			bool opened_wrong = false, accepted_any = false;
+			explore_roles("guess:qr:cardsecret:t" + str(type), kappa, guesses,
+				[&](std::iostream &io, const std::vector<int> &gu) {
+					io << (nonres ? "0" : "1") << std::endl;          // the false bit
+					return nonres ? qr_guess_prover(io, pk, &c.z[0][0], gu) : nqr_guess_prover(io, pk, &c.z[0][0], gu); },
+				[&](std::iostream &io) {
+					TMCG_CardSecret cs(2, 1);
+					tV.TMCG_SelfCardSecret(c, cs, *QW.sec[1], 1);
+					bool ok = tV.TMCG_VerifyCardSecret(c, cs, pk, 0, io, io);
+					if (ok) { accepted_any = true; opened_type = tV.TMCG_TypeOfCard(cs); if (opened_type != true_type) opened_wrong = true; }
+					return ok; }, seed);
+			if (accepted_any) R->counters[opened_wrong ? "cardsecret_opened_as_other_type_when_guess_hit" : "cardsecret_opened_right"]++;
+		}
+	}
+}
+
 int main(int argc, char **argv)
 {
 	Args A = parse(argc, argv);
@@ -159,6 +324,8 @@ int main(int argc, char **argv)
 	SchindelhauerTMCG build(16, K, W);
 	std::vector<std::vector<size_t> > perms = all_perms(n);
 
+	if (only_enc.empty() || only_enc == "qrvalue")
+		fam_qrvalue(QW, kappas, seed);
 	for (int enc = 0; enc < 2; enc++)
 	{
 		std::string encn = enc == 0 ? "vtmf" : "qr";
